@@ -333,12 +333,27 @@ func init() {
 				}
 				var b bytes.Buffer
 				err := rets[k].Execute(&b, nil, nil)
-				tr, _ := takeTrace()
+				tr, rawx := takeTrace()
+				opened := map[string]bool{}
+				for _, e := range rawx {
+					if e[0] == 'O' {
+						opened[e[2:]] = true
+					}
+				}
 				marks := sx.L()
 				for i, m := range markRe.FindAllStringSubmatch(b.String(), -1) {
 					marks.Add(sx.A(m[1]))
 					if dev && i > 0 && stale[m[1]] && fail == "" {
 						fail = "development mode rendered the stale content (marker " + m[1] + ") of an included template that was edited or deleted"
+					}
+				}
+				if dev && fail == "" {
+					for _, mk := range marks.Xs[min(1, len(marks.Xs)):] {
+						for pth, cur := range markOf {
+							if cur == mk.A && !opened[pth] {
+								fail = "development mode rendered the included template " + pth + " without re-reading it from the loader"
+							}
+						}
 					}
 				}
 				if err != nil {
